@@ -22,11 +22,15 @@ import (
 
 type req struct {
 	kind, typ, id, from, to, payload string
+	xmlns string // "" = inherited from the stream, else declared on the element
 }
 
 func (r req) doc() string {
 	var b strings.Builder
 	b.WriteString("<" + r.kind)
+	if r.xmlns != "" {
+		fmt.Fprintf(&b, " xmlns='%s'", r.xmlns)
+	}
 	if r.typ != "-" {
 		fmt.Fprintf(&b, " type='%s'", r.typ)
 	}
@@ -50,12 +54,12 @@ var froms = []string{"", "juliet@example.com/balcony", "me@example.net", "@@bad"
 var tos = []string{"", "me@example.net/res"}
 var payloads = []string{"", `<q xmlns='urn:q'/>`, `<iq xmlns='urn:q' id='a' type='result'/>`, `text`, `<other xmlns='urn:other'><q xmlns='urn:q'/></other>`}
 
-const nPrograms = 15
+const nPrograms = 17
 
 // program writes to the encoder per the chosen behaviour; returns how many
 // matching replies (top-level iq, type result|error, request id) it wrote and
 // the error the handler returns.
-func program(p int, t xmlstream.TokenWriter, r req) (matching int, herr error) {
+func program(p int, t xmlstream.TokenReadEncoder, r req) (matching int, herr error) {
 	iq := func(typ, id string, inner ...xml.Token) {
 		start := xml.StartElement{Name: xml.Name{Local: "iq"}, Attr: []xml.Attr{{Name: xml.Name{Local: "type"}, Value: typ}}}
 		if typ == "-" {
@@ -131,6 +135,26 @@ func program(p int, t xmlstream.TokenWriter, r req) (matching int, herr error) {
 		t.EncodeToken(w.End())
 		iq("-", r.id)
 	}
+	switch p {
+	case 15, 16: // the reply is written through the encoder's value methods
+		type reply struct {
+			XMLName xml.Name `xml:"iq"`
+			Type    string   `xml:"type,attr"`
+			ID      string   `xml:"id,attr,omitempty"`
+			To      string   `xml:"to,attr,omitempty"`
+		}
+		v := reply{Type: "result", ID: r.id}
+		if r.from != "" && r.from != "@@bad" {
+			v.To = r.from
+		}
+		if p == 15 {
+			t.Encode(v)
+		} else {
+			start := xml.StartElement{Name: xml.Name{Local: "iq"}}
+			t.EncodeElement(v, start)
+		}
+		matching = 1
+	}
 	if r.id == "" && matching > 0 {
 		matching = 0 // without an id nothing can match
 	}
@@ -145,6 +169,11 @@ func body(c *nd.Ctx) nd.Result {
 	r.from = froms[c.Choose(len(froms), "from")]
 	r.to = tos[c.Choose(len(tos), "to")]
 	r.payload = payloads[c.Choose(len(payloads), "payload")]
+	if c.Choose(2, "element-namespace") == 1 {
+		// the stanza declares the other stanza namespace (a jabber:server iq on
+		// a client stream and vice versa): the session treats it as a stanza
+		r.xmlns = map[string]string{stanza.NSClient: stanza.NSServer, stanza.NSServer: stanza.NSClient}[ns]
+	}
 	prog := c.Choose(nPrograms, "handler-program")
 	readAll := c.Choose(2, "handler-reads-payload") == 1
 	wiring := c.Choose(3, "wiring") // 0 bare handler, 1 mux with matching IQ handler(s), 2 mux without
@@ -223,7 +252,7 @@ func body(c *nd.Ctx) nd.Result {
 		if el.Name.Local == "error" && el.Name.Space == stream.NS {
 			streamErrs++
 		}
-		if el.Name.Local != "iq" || el.Name.Space != ns {
+		if el.Name.Local != "iq" || (el.Name.Space != stanza.NSClient && el.Name.Space != stanza.NSServer) {
 			continue
 		}
 		ty, _ := el.AttrVal("", "type")
